@@ -1149,6 +1149,49 @@ pub fn gen_program(rng: &mut SplitMix64, kind: u64) -> Program {
             }]);
             p.threads.push(vec![if rng.chance(1, 2) { COp::Get(pre) } else { COp::Iter }]);
         }
+        // the element counter lags behind the structure: a removal of x overtakes the counter update
+        // of the insert that linked x, so the counter reads one less than the number of entries
+        // (0 with one stable key) while an iterator / len / is_empty looks at the map
+        14 => {
+            p.hasher = [H_ZERO, H_IDENTITY, H_MIX][rng.below(3) as usize];
+            p.cap = [0, 16, 64][rng.below(3) as usize];
+            let stable = 1 + rng.below(2) as u32;
+            p.prefill = (0..stable).collect();
+            p.universe = stable + 3;
+            p.linger = 0;
+            let x = stable + rng.below(2) as u32;
+            p.threads.push(vec![COp::Insert(x, { val += 1; val })]);
+            p.threads.push(vec![COp::Remove(x), COp::Remove(x)]);
+            p.threads.push(vec![COp::Iter, COp::Iter]);
+            if nthreads > 3 {
+                p.threads.push(vec![COp::Get(0), COp::Iter]);
+            }
+        }
+        // first operations on a map whose table has never been allocated (lazy initialisation)
+        15 => {
+            p.hasher = [H_IDENTITY, H_MIX, H_ZERO][rng.below(3) as usize];
+            p.cap = 0;
+            p.prefill = vec![];
+            p.universe = 8;
+            p.linger = 0;
+            let mut next = 0u32;
+            for _ in 0..nthreads.max(3) {
+                let n = 1 + rng.below(2);
+                let mut ops = Vec::new();
+                for _ in 0..n {
+                    ops.push(match rng.below(5) {
+                        0 => COp::TryInsert(next, { val += 1; val }),
+                        1 => COp::Reserve(1 + rng.below(20)),
+                        _ => COp::Insert(next, { val += 1; val }),
+                    });
+                    next = (next + 1) % 8;
+                }
+                if rng.chance(1, 3) {
+                    ops.push(COp::Get(rng.below(8) as u32));
+                }
+                p.threads.push(ops);
+            }
+        }
         // only readers, three or more, on one big tree bin (C06: lookups stay logarithmic however
         // many readers share the read lock)
         13 => {
